@@ -61,3 +61,52 @@ def filedata(ctx, maxfs_values=(0, 4)):
                 maxoff=3 if ctx.quick() else 4, maxlen=2 if ctx.quick() else 3, T=T, maxfs=mfs))
             ctx.tlc_exhaustive("Core", "FileData", cfg, timeout=1500)
     ctx.cov["exhaustive"] = True
+
+
+SMALL_CFG = """SPECIFICATION Spec
+CONSTANTS
+%s
+%s
+"""
+
+
+def small(ctx, module, consts, props, expect_ok=True, count=True, name=None):
+    cfg = ctx.write_cfg("Core", name or ("MC_%s.cfg" % module), SMALL_CFG % (consts, props))
+    return ctx.tlc_exhaustive("Core", module, cfg, expect_ok=expect_ok, count=count, timeout=900, deadlock=False)
+
+
+def durability(ctx):
+    fixed = ctx.finding_status("F14") == "fixed"
+    consts = " Vals = {1, 2}\n Len0 = %d\n MaxWrites = %d\n SyncInWrite = %%s" % ((2, 3) if ctx.quick() else (3, 4))
+    if fixed:
+        small(ctx, "Durability", consts % "TRUE", "INVARIANT Stable")
+    r = small(ctx, "Durability", consts % "FALSE", "INVARIANT Stable", expect_ok=False, count=not fixed, name="MC_Durability_nosync.cfg")
+    if r["violated"] != "Stable":
+        raise vflib.Broken("Durability without sync should violate Stable")
+    ctx.cov["exhaustive"] = True
+    ctx.notes.append("non-vacuity: without a sync in the write path TLC finds a crash point after the first FILE_SYNC reply that loses acknowledged data (F14)")
+
+
+def ownership(ctx):
+    fixed = ctx.finding_status("F08") == "fixed"
+    ids = "{0, 1000, 65534}" if ctx.quick() else "{0, 7, 1000, 65534}"
+    consts = ' Ids = %s\n Objs = {"x", "y"}\n Modes = {"none", "root", "all", "bogus"}\n CreateChowns = %%s' % ids
+    if fixed:
+        small(ctx, "Ownership", consts % "TRUE", "INVARIANT NewGetsCaller\nPROPERTY NonRootOnlyOwn")
+    r = small(ctx, "Ownership", consts % "FALSE", "INVARIANT NewGetsCaller\nPROPERTY NonRootOnlyOwn", expect_ok=False, count=not fixed,
+              name="MC_Ownership_nochown.cfg")
+    if not r["violated"]:
+        raise vflib.Broken("Ownership without the CREATE chown should violate NewGetsCaller")
+    ctx.cov["exhaustive"] = True
+    ctx.notes.append("non-vacuity: with CreateChowns=FALSE (finding F08) TLC finds a CREATE by a non-root caller whose file is owned by the server identity")
+
+
+def readonly(ctx):
+    consts = (' Procs = {"GETATTR", "ACCESS", "READ", "SETATTR", "WRITE", "CREATE", "MKDIR", "SYMLINK", "MKNOD", "REMOVE", "RMDIR", "RENAME", "LINK", "COMMIT"}\n'
+              ' MutProcs = {"SETATTR", "WRITE", "CREATE", "MKDIR", "SYMLINK", "MKNOD", "REMOVE", "RMDIR", "RENAME", "LINK", "COMMIT"}\n'
+              ' ArgKinds = {"wellformed", "truncated", "garbage"}\n GuardFirst = %s')
+    small(ctx, "ReadOnly", consts % "TRUE", "INVARIANT NeverModified\nPROPERTY Unchanged")
+    r = small(ctx, "ReadOnly", consts % "FALSE", "INVARIANT NeverModified\nPROPERTY Unchanged", expect_ok=False, count=False, name="MC_ReadOnly_late.cfg")
+    if not r["violated"]:
+        raise vflib.Broken("ReadOnly with a late guard should violate NeverModified")
+    ctx.cov["exhaustive"] = True
